@@ -1,12 +1,15 @@
 import PlinioVerif.Model.Proto
 import PlinioVerif.Model.CostNum
 import PlinioVerif.Gen.Reg
+import PlinioVerif.Model.RegInstance
 /-! Line driver for the C19 correspondence (value reading `CostNum Rat` of the generated regularizers).
 
 ```
 base    cost=<q> strength=<q>                      -> ok:<q> | err
 duccio  ms=[[cost,target,strength],…] epoch=<q> n=<q>   -> ok:<q> | err
 derived loss=<q> c0=<q> t=<q>                      -> ok:<q> | err
+hist    targets=[q,…] loss=<q> strengths=[q,…]|none calls=[[epoch,n,cost,…],…]
+                                                   -> [ok:<q>|err,…]   one entry per call, one object
 ```
 -/
 open PlinioVerif PlinioVerif.Proto
@@ -32,6 +35,14 @@ def handle (line : String) : String :=
   | "derived" :: rest =>
     let l := ratField rest "loss"; let c := ratField rest "c0"; let t := ratField rest "t"
     showRes (Gen.duccio.derived_strength.ok l c t) (Gen.duccio.derived_strength.val l c t)
+  | "hist" :: rest =>
+    match (field? rest "targets").bind (parseList? parseRat?), (field? rest "calls").bind (parseList2? parseRat?) with
+    | some ts, some calls =>
+      let ss := (field? rest "strengths").bind (parseList? parseRat?)
+      let inst : RegInst.Instance := ⟨ts, ratField rest "loss", ss⟩
+      let cs : List RegInst.Call := calls.map fun l => ⟨l.drop 2, l.getD 0 0, l.getD 1 0⟩
+      showList (fun o => match o with | some v => s!"ok:{showRat v}" | none => "err") (inst.runOk true cs)
+    | _, _ => "bad-request"
   | _ => "bad-request"
 
 def main : IO Unit := runDriver handle
